@@ -8,7 +8,7 @@ Definition magic_version (m : Z) : list Z :=
   match zassoc m magic_tuple with Some (Some t) => t | _ => [] end.
 Definition xdis_cfg (magic : Z) : cfg :=
   {| strict := false; magic_int := magic; version := magic_version magic; flag_ref_ok := true;
-     mask_flag := true; unknown_err := false; code_ok := fun t => zmem t xdis_codes |}.
+     mask_flag := true; unknown_err := false; code_ok := fun t => zmem t xdis_codes; neg_size_err := false |}.
 
 (* ---- CPython's marshal.c for the bytecode version v ---- *)
 Definition cpy_code_ok (v : list Z) (t : Z) : bool :=
@@ -27,7 +27,7 @@ Definition cpy_code_ok (v : list Z) (t : Z) : bool :=
 Definition cpy_cfg (magic : Z) : cfg :=
   let v := magic_version magic in
   {| strict := true; magic_int := magic; version := v; flag_ref_ok := tuple_geb v [3; 4] && negb (zmem magic [3250; 3260; 3270]) || tuple_geb v [3; 4];
-     mask_flag := true; unknown_err := true; code_ok := cpy_code_ok v |}.
+     mask_flag := true; unknown_err := true; code_ok := cpy_code_ok v; neg_size_err := true |}.
 
 Definition init_state (bs : list Z) : mstate := {| inp := bs; refs := []; strs := [] |}.
 Definition load (c : cfg) (bs : list Z) : result (pv * mstate) := r_object (S (List.length bs)) c (init_state bs).
